@@ -96,6 +96,14 @@ impl Persister for FilePersister {
                 format!("{COMPONENT} (error: {error}) - failed to write data to file: {path}")
             })
             .map_err(|_| IggyError::CannotWriteToFile)?;
+        // The write is only buffered so far: wait for it, otherwise a later append through another
+        // handle can overtake it and a failed write goes unnoticed.
+        file.flush()
+            .await
+            .with_error_context(|error| {
+                format!("{COMPONENT} (error: {error}) - failed to flush data to file: {path}")
+            })
+            .map_err(|_| IggyError::CannotWriteToFile)?;
         Ok(())
     }
 
@@ -110,6 +118,14 @@ impl Persister for FilePersister {
             .await
             .with_error_context(|error| {
                 format!("{COMPONENT} (error: {error}) - failed to write data to file: {path}")
+            })
+            .map_err(|_| IggyError::CannotWriteToFile)?;
+        // The write is only buffered so far: wait for it, otherwise a later append through another
+        // handle can overtake it and a failed write goes unnoticed.
+        file.flush()
+            .await
+            .with_error_context(|error| {
+                format!("{COMPONENT} (error: {error}) - failed to flush data to file: {path}")
             })
             .map_err(|_| IggyError::CannotWriteToFile)?;
         Ok(())
